@@ -108,7 +108,7 @@ def _work(job: tuple) -> dict:
                 # -- fresh decode of the history alphabet (reference for the prior-state invariant)
                 for a in alpha:
                     cmds.append(f"D {ti} 1 {E.hexs(a)}")
-                    meta.append(("Dalpha", d, a))
+                    meta.append(("Dalpha", d, a, ti))
                 # -- serialization into exactly-sized output buffers of every size 0..max+1
                 picks = vals[:: max(1, len(vals) // 3)][:3] if vals else []
                 for v in picks:
@@ -136,15 +136,15 @@ def _work(job: tuple) -> dict:
                             if pr != 0 and any(ops[i][0] == "@" for i in seq):
                                 continue  # serializing a poisoned C object would read trap bools: the harness's UB, not nunavut's
                             cmds.append(f"H {ti} {pr} " + " ".join(ops[i] for i in seq))
-                            meta.append(("H", d, (seq, alpha, ops)))
+                            meta.append(("H", d, (seq, alpha, ops, ti)))
             res = sh.run_driver(exe, cmds)
-            fresh: typing.Dict[typing.Tuple[str, bytes], str] = {}
+            fresh: typing.Dict[typing.Tuple[int, bytes], str] = {}  # keyed by type index: request and response of a service share a TypeDef
             for m, r in zip(meta, res):
                 if m[0] == "Dalpha" and isinstance(r, str):
-                    fresh[(m[1].name, m[2])] = r[2:]
+                    fresh[(m[3], m[2])] = r[2:]
             rcs = CPP_RCS if cpp else C_RCS
             for m, r in zip(meta, res):
-                kind, d, info = m
+                kind, d, info = m[0], m[1], m[2]
                 stats["evals"] += 1
                 if isinstance(r, dict):
                     rep = r.get("crash", "")
@@ -166,7 +166,7 @@ def _work(job: tuple) -> dict:
                         stats["nontrivial"] += 1
                     continue
                 # history
-                seq, alpha, ops = info
+                seq, alpha, ops, hti = info
                 stats["hist"] += 1
                 stats["states"] += 1
                 steps = r
@@ -176,7 +176,7 @@ def _work(job: tuple) -> dict:
                     stats["transitions"] += 1
                     if ops[i][0] == "@":
                         continue
-                    want = fresh.get((d.name, alpha[i]))
+                    want = fresh.get((hti, alpha[i]))
                     got = line[2:]
                     if want is None:
                         continue
@@ -287,7 +287,7 @@ def run(ctx: Ctx) -> int:
     if ctx.thorough:
         defs = [d for d in alld if d.layer != "L1" or d.core or ctx.in_slice(d.name, 4) or True]
     else:
-        defs = [d for d in alld if d.layer == "L3i" or (d.core and (d.layer != "L1" or ("k0" in d.name or "k7" in d.name))) or (d.layer in ("L3", "L4") and ctx.in_slice(d.name))]
+        defs = [d for d in alld if d.layer == "L3i" or (d.core and (d.layer != "L1" or ("k0" in d.name or "k7" in d.name or d.name.startswith("L1e")))) or (d.layer in ("L3", "L4") and ctx.in_slice(d.name))]
     shards = E.make_shards(defs, 8 if not ctx.thorough else 20)
     cfgs = configs(ctx)
     jobs = E.debug_filter([(i, sh, ctx.scratch, ctx.thorough, cfgs) for i, sh in enumerate(shards)])
